@@ -365,11 +365,19 @@ def _evaluate_binary_operator(bin_op, left_value, right_value):
     else: # bin_op == '**'
         # number ** number
         if _is_number(left_value) and _is_number(right_value):
+            # An integer power beyond any number's range is computed as a float (overflow) instead of exactly
+            if isinstance(left_value, int) and isinstance(right_value, int) and abs(left_value) > 1 and \
+               right_value * left_value.bit_length() > _POWER_BITS_MAX:
+                left_value = float(left_value)
             result = left_value ** right_value
             return result if not isinstance(result, complex) else None
 
     # Invalid operation values
     return None
+
+
+# The maximum size, in bits, of an exactly-computed integer power
+_POWER_BITS_MAX = 65536
 
 
 # Helper function to test for a number value (booleans are not numbers)
